@@ -8,6 +8,21 @@ HOOK_COMMITS = subprocess.run(
 
 # id -> (engine/package, level, technique, level text, level note, design_ref)
 CHECKS = {
+ "C01": ("v_db", "fault_enumeration",
+   "crash-point enumeration over a recorded backend mutation log (RecStore.materialize) + nested crash points inside recovery + single-call unknown-outcome faults, each followed by the real recovery path and a model/audit oracle",
+   "For generated workloads over fixture F (add/update/remove/flush/extensions/compaction/reconcile/reopen with index create+backfill and index removal, rejected operations mixed in, one forced index swap) on InMemory, MetaStore and EncryptedStore (recorder below the wrapper): every prefix k of the landed-mutation log is materialized and recovered with AndaDB::connect + open_or_create_collection; documents must equal the acknowledged model, the in-flight operation may be fully applied or absent, the full C02 index<->document audit runs on every recovered state; recovered collections must accept add/update/remove + flush, reopen to the same state, hand out only ids above every flush-acknowledged id, and a settled reopen is measured for repair writes; recovery itself is crashed after j of its own mutations (sampled in quick, enumerated in thorough) and recovered again; the workload is re-executed with one backend call failing before / after it landed and the application-style reopen is audited after resolving the unknown outcome by observation.",
+   "Crash model = the repository's own: each backend mutation atomic, sequence interruptible; single-threaded driver so a crash state is exactly a prefix of the recorded log. Holds for the workloads generated (counts per in-flight operation kind in the evidence). Extensions are not asserted after a crash. Real power loss below the ObjectStore abstraction is out of reach.",
+   "DESIGN.md C01"),
+ "C02": ("v_db", "exploration",
+   "model-based runtime monitor: bidirectional index<->document audit through the public API after every operation of generated histories",
+   "Seeded histories (25-40 ops incl. rejected adds/updates of four classes, index create+backfill/removal at reopen, compaction, reconcile) over fixture F with unique, composite, array, map-key, optional-I64, text and vector indexes under varying storage configs; after every operation: ids/len/contains/get for every id incl. absent ones, every B-tree index probed with every model-derived key plus absent keys (I64 also in the U64 read-back shape), key listings compared for phantom/missing keys, range scans, BM25 term queries for the whole vocabulary against the collection's own tokenizer, HNSW element count and soundness of searches. Expectations are derived from a BTreeMap model by harness code. Post-crash states get the same audit from C01.",
+   "Holds for the histories generated. HNSW reachability is statistical and only counted. The audit reads through public APIs only, so in-memory structures that no API exposes are not inspected.",
+   "DESIGN.md C02"),
+ "C03": ("v_db", "exploration",
+   "differential runtime monitor against a set-algebra evaluator + metamorphic relations on the real code",
+   "Generated filter trees (depth<=3 at filter and range level; Eq/Gt/Ge/Lt/Le/Between incl. inverted/Include incl. duplicates and empty/And/Or/Not) over _id and seven B-tree indexes of collections whose values are independent of ids (duplicates, arrays, map keys, missing optionals, non-contiguous ids): query_all_ids must equal the evaluator's set, query_ids/query_last_ids must equal the first/last min(limit,MAX_SEARCH_LIMIT) ids of it for limits None,0,1..n+1,MAX,MAX+1 (a >1000-match collection exercises the clamp); Between vs And(Ge,Le), double negation, operand permutation, De Morgan and filter-level vs range-level Or must agree on the real code; search_ids with a filter is recomputed from the BM25/HNSW views + RRFReranker; over-budget and mistyped filters must be refused.",
+   "Holds for the generated trees and collections. Empty And/Or only at the range level (pinned semantics). Candidate recomputation for search_ids trusts the public index views.",
+   "DESIGN.md C03"),
  "C10": ("v_idx", "exploration",
    "model-based runtime monitor (BTreeMap oracle after every op) + crash-prefix enumeration of recorded flush writes + controlled thread schedules at verif_point hooks with per-key linearizability checking",
    "Runs the real BTreeIndex under seeded histories with minimum bucket size; after every operation all read APIs (point, keys paging, range trees depth<=3 in both directions with early stop, prefix) are compared with a BTreeMap model and the structural invariant walker runs; every prefix of every flush's bucket/metadata/delete write sequence is loaded and must equal the previous or the new commit exactly (plus failed flush + retry, legacy layout); 2-3 OS threads are scheduled at verif_point hooks (DFS over grant choices, random beyond the budget) and each key's call/return history must be linearizable, the invariant walker must pass and flush+reload must equal memory.",
